@@ -1,7 +1,7 @@
 """C25 table operations and session control never deadlock (spec Conc)."""
 import vf
 
-TABLE_OPS = {"churn", "inchurn", "imp", "exp1", "exp2", "rereg1", "rereg2", "dump", "cmlate", "cmuse"}
+TABLE_OPS = {"churn", "inchurn", "imp", "exp1", "exp2", "rereg1", "rereg2", "dump", "unreg", "cmlate", "cmuse"}
 SRV_OPS = {"stop", "fsmopen", "fsmidle", "stopdead", "srvexp", "srvupd"}
 INV = ["NoDeadlock", "LocksOK"]
 
@@ -39,14 +39,15 @@ def run(ctx):
     ctx.exhaustive = True
     ctx.rule = ("Conc: every multiset of 2 and 3 (thorough: 4) concurrent operations out of Loc-RIB AddPath/RemovePath, Adj-RIB-In "
                 "AddPath/RemovePath, import policy replacement, export policy replacement per session, unregister + register of a "
-                "session's Adj-RIB-Out, dumps, late registration at a disposed client manager and its later use; the lock / channel "
+                "session's Adj-RIB-Out, dumps, Unregister of a client that is not registered (at all three tables), late registration at a "
+                "disposed client manager and its later use; the lock / channel "
                 "steps of each operation are modelled (RWMutex with writer preference) and TLC proves the discipline free of deadlock "
                 "(and shows the original one to deadlock). Every scenario runs on fresh real tables (Adj-RIB-In -> Loc-RIB -> two "
                 "Adj-RIB-Out with clients), each operation repeated 300 (thorough: 2000) times in its own goroutine, 3 (thorough: 6) "
                 "rounds with GOMAXPROCS 16 and 2; a watchdog bounds the scenario, then a probe (register, add, remove, dump) must work "
                 "and, where the final state is defined, the sessions' clients hold exactly what the Loc-RIB holds. Server level: "
                 "DisposePeer on a peer with no session / an established session / an FSM that ceased after a collision / an FSM "
-                "parked before its collision check (scheduler gate); export policy replacement through the server while the peer "
+                "parked before its collision check (scheduler gate) / an FSM in its reconnect pause with a Cease already queued; export policy replacement through the server while the peer "
                 "sends UPDATEs. non-trivial = at least two operations take the same lock")
 
     def nt(b):
@@ -55,5 +56,5 @@ def run(ctx):
         ctx.replay("conc", behs, params={"reps": 2000 if big else 300, "rounds": 3 if not big else 2, "gomaxprocs": procs}, nontrivial=nt,
                    per_timeout=120, shards=8)
     srv = [[{"a": "SrvScenario", "kind": k}] for k in ("dispose-idle", "dispose-established", "dispose-after-session", "dispose-after-collision",
-                                                         "dispose-during-open", "export-while-updates", "import-while-updates")]
-    ctx.replay("concsrv", srv, params={"reps": 400 if big else 120, "rounds": 4 if big else 2}, nontrivial=lambda b: True, per_timeout=180, shards=7)
+                                                         "dispose-during-open", "dispose-with-queued-cease", "export-while-updates", "import-while-updates")]
+    ctx.replay("concsrv", srv, params={"reps": 400 if big else 120, "rounds": 4 if big else 2}, nontrivial=lambda b: True, per_timeout=180, shards=8)
